@@ -283,6 +283,9 @@ class Ref:
         return sum(1 for h in self.hs.values() if h["side"] == side and not h["closed"])
 
     def t(self, name):
+        # a repaired finding's shape is harmless: it no longer explains later deviations
+        if {"F07": FIX_CONV, "F34": FIX_CLONE, "F35": FIX_FUT}.get(name, False):
+            return
         if name not in self.taint:
             self.taint.append(name)
 
